@@ -44,6 +44,7 @@ type SMSMsg struct {
 	Code    string
 	Browser string
 	At      time.Time
+	For     string // oracle memory only: the account whose login (or settings change) the code was sent for
 }
 
 // World is the complete mutable state outside the library.
